@@ -54,21 +54,19 @@ theorem lt_val' {n : Nat} {a x : List Nat} (ha : Wf n a) (hx : Wf n x) : lt a x 
 theorem le_val' {n : Nat} {a x : List Nat} (ha : Wf n a) (hx : Wf n x) : le a x = decide (val a ≤ val x) := by
   rw [le, cmpTop_eq a x (by rw [ha.1, hx.1]) ha.2 hx.2, compare_bne_gt]
 
+set_option linter.unusedSimpArgs false
+
 theorem gt_val' {n : Nat} {a x : List Nat} (ha : Wf n a) (hx : Wf n x) : gt a x = decide (val x < val a) := by
-  rw [gt, le_val' ha hx]
-  by_cases h : val a ≤ val x
-  · have : ¬ val x < val a := by omega
-    simp [h, this]
-  · have : val x < val a := by omega
-    simp [h, this]
+  simp only [gt, gtDef, evalCmpDef, primCmp, le_val' ha hx, lt_val' ha hx, lt_val' hx ha, le_val' hx ha]
+  rw [Bool.eq_iff_iff]
+  simp
+  try omega
 
 theorem ge_val' {n : Nat} {a x : List Nat} (ha : Wf n a) (hx : Wf n x) : ge a x = decide (val x ≤ val a) := by
-  rw [ge, lt_val' ha hx]
-  by_cases h : val a < val x
-  · have : ¬ val x ≤ val a := by omega
-    simp [h, this]
-  · have : val x ≤ val a := by omega
-    simp [h, this]
+  simp only [ge, geDef, evalCmpDef, primCmp, le_val' ha hx, lt_val' ha hx, lt_val' hx ha, le_val' hx ha]
+  rw [Bool.eq_iff_iff]
+  simp
+  try omega
 
 /-- the `!=` scan finds a differing digit iff the digit lists differ -/
 theorem ne_eq_decide : ∀ (a x : List Nat), a.length = x.length → ne a x = decide (a ≠ x)
@@ -91,7 +89,9 @@ theorem ne_val' {n : Nat} {a x : List Nat} (ha : Wf n a) (hx : Wf n x) : ne a x 
   · intro h e; exact h (by rw [e])
 
 theorem eq_val' {n : Nat} {a x : List Nat} (ha : Wf n a) (hx : Wf n x) : eq a x = decide (val a = val x) := by
-  rw [eq, ne_val' ha hx]
-  by_cases h : val a = val x <;> simp [h]
+  simp only [eq, eqDef, evalCmpDef, primCmp, ne_val' ha hx, ne_val' hx ha]
+  rw [Bool.eq_iff_iff]
+  simp
+  try omega
 
 end DV.C10
